@@ -22,7 +22,7 @@ Extraction "../build/ocaml/model.ml"
   NalSplit.check_reframe NalSplit.spec_adts_payload NalSplit.spec_opus_valid NalSplit.spec_payloads
   Checks.accepted Checks.check_C01 Checks.check_C02_mux Checks.check_init_structure
   Checks.check_segment_structure Checks.check_C03
-  Checks.check_C06 Checks.check_C15 Checks.check_C09 Checks.check_C08 Checks.same_media Checks.check_C10 Checks.check_C11
+  Checks.check_C06 Checks.expected_max_end Checks.check_C15 Checks.check_C09 Checks.check_C08 Checks.same_media Checks.check_C10 Checks.check_C11
   HeaderChecks.check_C07 HeaderChecks.check_C18 HeaderChecks.failed_C19_mux HeaderChecks.failed_C19_init HeaderChecks.failed_C16_mux Headers.iso8601
   Av1Syntax.seq_obu Av1Syntax.valid_seq Av1Syntax.seq_level0 Av1Syntax.seq_tier0
   Cli.mux_command Cli.validate_verdict Cli.info_walk Cli.read_hex_bytes
